@@ -157,7 +157,7 @@ def run(chk):
     broken = chk.proof_obligations(["Corr/Gen.vo"])
     chk.coverage["rule"] = (
         "schemas with several protocols and services; every generator (dbc, can_c, cpp, nop) is run in fresh interpreters under different "
-        "PYTHONHASHSEEDs, after unrelated parse/generate calls in the same process, after parsing and generating from another schema that declares the same type names with other definitions, twice on the same parsed schema object, after every other generator has run on that same object, and (schemas split into a main file and a module) after the same process parsed the same paths while the module file held other definitions; the {path: contents} "
+        "PYTHONHASHSEEDs, after unrelated parse/generate calls in the same process, after parsing and generating from another schema that declares the same type names with other definitions (also with the very Generator objects that generated from that schema), twice on the same parsed schema object, after every other generator has run on that same object, and (schemas split into a main file and a module) after the same process parsed the same paths while the module file held other definitions; the {path: contents} "
         "maps must be identical apart from the documented '// Generated using fcp ... on ...' stamp line; the C++ generator's file set is compared "
         "in Coq with the model; non-trivial = >= 2 protocols or a service; distinct = (schema, generator, configuration)")
     work = common.scratch_dir("verif_c17_")
@@ -196,7 +196,7 @@ def run(chk):
                 f.write(prev_text)
             protos = [i.protocol for i in fcp.impls]
             for name in ("dbc", "can_c", "cpp", "nop"):
-                confs = [("none", s) for s in chk.rng.sample(range(1, 10000), nseeds)] + [("busy", 7), ("twice", 11), ("busy", 4242), ("after:" + prev, 5), ("after:" + prev, 977), ("others-first", 3), ("others-first", 4711)] + ([("module-rewritten:" + rewrite, 9), ("module-rewritten:" + rewrite, 1234)] if rewrite else [])
+                confs = [("none", s) for s in chk.rng.sample(range(1, 10000), nseeds)] + [("busy", 7), ("twice", 11), ("busy", 4242), ("after:" + prev, 5), ("after:" + prev, 977), ("same-object-after:" + prev, 6), ("others-first", 3), ("others-first", 4711)] + ([("module-rewritten:" + rewrite, 9), ("module-rewritten:" + rewrite, 1234)] if rewrite else [])
                 for ci, (hist, seed) in enumerate(confs):
                     jobs.append((path, name, f"{work}/o{k}_{name}_{ci}", hist, seed))
                     index.append((k, text, name, hist, seed, protos, [s.name for s in fcp.services]))
@@ -226,9 +226,9 @@ def run(chk):
                               "files_that_differ": diff[:6]})
                 for side in ("first", "second"):
                     h = fails[-1][side]["history"]
-                    if h.startswith("after:"):
-                        fails[-1][side]["history"] = "after"
-                        fails[-1]["schema_generated_from_earlier_in_the_process"] = prevs[h[6:]]
+                    if h.startswith("after:") or h.startswith("same-object-after:"):
+                        fails[-1][side]["history"] = h.split(":")[0]
+                        fails[-1]["schema_generated_from_earlier_in_the_process"] = prevs[h.split(":", 1)[1]]
                     if h.startswith("module-rewritten:"):
                         fails[-1][side]["history"] = "module-rewritten"
                         fails[-1]["text_of_the_module_file_during_the_first_parse_of_the_process"] = prevs[h[len("module-rewritten:"):]]
